@@ -206,6 +206,7 @@ func VerifH16Lifecycle() {
 		verifrt.Fail("initial-start")
 		return
 	}
+	first := cur // the instance the casket binary waits on, whatever reloads follow
 	want := []string{"firststartup@A", "startup@A", "listen@A1", "listen@A2"}
 	curTag, curFault := "A", firstFault
 	live := []string{"A"} // tags of the live instances, in the order of the instance list
@@ -289,7 +290,11 @@ func VerifH16Lifecycle() {
 	for _, t := range live {
 		want = append(want, "stop@"+t+"1", "stop@"+t+"2")
 	}
-	cur.Wait() // returns only after every server of the lineage has stopped (a hang here is a deadlock)
+	// waiting on the first instance returns only after every server of it AND of its successors has
+	// stopped (a hang here is a deadlock); the servers record "served" when their loop ends
+	first.Wait()
+	verifrt.Assert(zzHas("served@"+curTag+"1") && zzHas("served@"+curTag+"2"), "wait-on-the-first-instance-covers-its-successors")
+	cur.Wait()
 	if verifrt.Bool("start-again-after-stop") {
 		// everything has stopped; a further Start in the same process is again an initial start
 		if _, err := Start(zzInput("E", "")); err != nil {
